@@ -1,4 +1,4 @@
-use crate::common::constants::CoroutineState;
+use crate::common::constants::{CoroutineState, SyscallState};
 use crate::coroutine::listener::Listener;
 use crate::coroutine::local::CoroutineLocal;
 use crate::coroutine::suspender::Suspender;
@@ -478,8 +478,15 @@ where
                         // this thread would be delayed or cancelled instead.
                         let cancelled = Suspender::<Yield, Param>::is_cancel();
                         _ = Suspender::<Yield, Param>::timestamp();
-                        if cancelled && self.running().is_ok() && self.cancel().is_ok() {
-                            return Ok(CoroutineState::Cancelled);
+                        if cancelled {
+                            // cancel() never returns to its caller, so this coroutine must not
+                            // be resumed again: leave the syscall state and cancel it
+                            if !matches!(state, SyscallState::Executing) {
+                                _ = self.syscall(y, syscall, SyscallState::Executing);
+                            }
+                            if self.running().is_ok() && self.cancel().is_ok() {
+                                return Ok(CoroutineState::Cancelled);
+                            }
                         }
                         Ok(CoroutineState::Syscall(y, syscall, state))
                     }
